@@ -17,6 +17,8 @@ type propSpec struct {
 	rule     string
 	opts     GenOpts
 	states   bool
+	pauses   bool
+	modeF    [2]int // quick / thorough histories in free-running mode (0 = none)
 	nt       func(l map[string]int) bool
 	quick    int
 	thorough int
@@ -40,8 +42,21 @@ func runProp(t *testing.T, ps propSpec) {
 		"a refusal the model does not predict is followed, not judged (counted as unexpected_refusal)",
 	}
 	defer rec.Write()
-	cfg := Config{Own: map[string]bool{ps.id: true}, Rec: rec, CheckStates: ps.states}
+	cfg := Config{Own: map[string]bool{ps.id: true}, Rec: rec, CheckStates: ps.states, PauseMerger: ps.pauses}
 
+	if p := os.Getenv("VERIF_REPLAY"); p != "" && strings.Contains(p, "history-") {
+		var h History
+		b, err := os.ReadFile(p)
+		if err != nil || json.Unmarshal(b, &h) != nil {
+			t.Fatalf("cannot read history file %s", p)
+		}
+		if v, _ := JudgeHistory(&h); v != nil && owns(v, ps.id) {
+			rt.Fail(t, rec, "replay", p, v.Msg)
+		}
+		rec.Case(true, "h1")
+		rec.Case(true, "h2")
+		return
+	}
 	if p := os.Getenv("VERIF_REPLAY"); p != "" && strings.HasSuffix(p, ".json") {
 		var prog Program
 		b, err := os.ReadFile(p)
@@ -84,12 +99,50 @@ func runProp(t *testing.T, ps propSpec) {
 			rec.Sample("nontrivial_history", map[string]any{"schemas": prog.Schemas, "log": st.Log})
 		}
 	})
+
+	if ps.modeF[0] > 0 {
+		// Mode F: free-running goroutines; the oracle judges the recorded
+		// history. A failure is not handed to rapid (a schedule cannot be
+		// shrunk or replayed): the history is saved and judged again on replay.
+		var failures []string
+		rt.Check(t, rec, "modeF", ps.modeF[0], ps.modeF[1], func(t *rapid.T) {
+			if len(failures) > 0 {
+				return
+			}
+			fp := genFProgram(t, ps.opts)
+			h := RunF(fp)
+			v, st := JudgeHistory(h)
+			if v != nil && owns(v, ps.id) {
+				path := SaveHistory(h, fmt.Sprintf("history-%d.json", len(failures)))
+				failures = append(failures, v.Msg+" (history: "+path+")")
+				return
+			}
+			rec.Case(st.Overlapping > 0 || st.Conflicts > 0, "F"+mustJSON(fp))
+			rec.Label("modeF_histories")
+			rec.LabelN("modeF_committed_writers", st.Writers)
+			rec.LabelN("modeF_writers_overlapping_previous_commit", st.Overlapping)
+			rec.LabelN("modeF_conflict_aborts", st.Conflicts)
+			rec.LabelN("modeF_read_transactions", st.ReadTrans)
+			if v != nil {
+				rec.Label("modeF_stopped_by_other_property:" + strings.Join(v.Props, "+"))
+				rec.Sample("modeF_other_property", v.Msg)
+			}
+		})
+		for _, f := range failures {
+			rt.Fail(t, rec, "modeF", "", f)
+		}
+	}
+}
+
+func mustJSON(v any) string {
+	b, _ := json.Marshal(v)
+	return string(b)
 }
 
 var baseWorld = WorldOpts{Fkeys: true, SelfRef: false, EmptyKey: true, MaxTabs: 2}
 
 func TestC01(t *testing.T) {
-	runProp(t, propSpec{id: "C01",
+	runProp(t, propSpec{id: "C01", modeF: [2]int{150, 1500},
 		rule: "rapid-generated programs interleaving 2-4 transactions (lookups, forward/backward/partial range scans, scan-and-modify, inserts, updates, deletes, commits, aborts, persists, merge syncs) on 1-2 generated tables with tiny value domains; oracle = serial replay of every committed writer's reads and writes at its commit point on an own logical model. Non-trivial: a writer committed after another commit happened since its start, or a conflict abort occurred; distinct by program.",
 		opts: GenOpts{World: baseWorld, Slots: 4, MaxInstrs: 40, ValRange: 12,
 			Weights: map[string]int{"begin": 10, "lookup": 12, "scan": 12, "complete": 10}},
@@ -98,7 +151,7 @@ func TestC01(t *testing.T) {
 }
 
 func TestC02(t *testing.T) {
-	runProp(t, propSpec{id: "C02",
+	runProp(t, propSpec{id: "C02", modeF: [2]int{100, 1000},
 		rule: "same engine, weighted towards read transactions held open across foreign commits, persists and merges and re-reading all earlier reads; oracle = every read equals start snapshot + own changes (own model) and repeated reads are identical. Non-trivial: a re-read happened in a history with a successful commit and a persist/merge; distinct by program.",
 		opts: GenOpts{World: baseWorld, Slots: 4, MaxInstrs: 40, ValRange: 12,
 			Weights: map[string]int{"beginread": 8, "reread": 10, "persist": 4, "mergesync": 4, "lookup": 10, "scan": 10}},
@@ -107,7 +160,7 @@ func TestC02(t *testing.T) {
 }
 
 func TestC03(t *testing.T) {
-	runProp(t, propSpec{id: "C03",
+	runProp(t, propSpec{id: "C03", modeF: [2]int{100, 1000},
 		rule: "same engine with explicit aborts, conflict aborts, max-age aborts (MaxAge lowered, injected clock ticks), exclusive index builds preempting writers; oracle = after every completion/abort a fresh read transaction shows exactly the model folded over the successful completions, failed transactions stay failed, Info.Nrows/Size equal actual rows/bytes. Non-trivial: history with a failed/aborted and a successful completion; distinct by program.",
 		opts: GenOpts{World: baseWorld, Slots: 4, MaxInstrs: 40, ValRange: 12, LowMaxAge: true,
 			Weights: map[string]int{"abort": 5, "tick": 4, "admin": 2, "complete": 10}},
@@ -118,7 +171,7 @@ func TestC03(t *testing.T) {
 }
 
 func TestC06(t *testing.T) {
-	runProp(t, propSpec{id: "C06",
+	runProp(t, propSpec{id: "C06", modeF: [2]int{100, 1000},
 		rule: "same engine weighted towards update-then-delete / delete-then-reinsert in one transaction, scan-and-modify, cascades and index builds on populated tables; oracle = in every state delivered by the state-update hook, in every update transaction's own view after each write, and in every fresh read transaction: each index is strictly ordered, each entry's key is the key of its record, and all indexes yield the same offsets (= Info.Nrows). Non-trivial: >= 2 successful commits and a cascade, refused or scan-modify operation; distinct by program.",
 		opts: GenOpts{World: WorldOpts{Fkeys: true, SelfRef: true, EmptyKey: true, MaxTabs: 2}, Slots: 3, MaxInstrs: 45, ValRange: 12,
 			Weights: map[string]int{"update": 14, "delete": 10, "scanmod": 6, "admin": 2, "persist": 3, "mergesync": 3}},
@@ -128,7 +181,7 @@ func TestC06(t *testing.T) {
 }
 
 func TestC07(t *testing.T) {
-	runProp(t, propSpec{id: "C07",
+	runProp(t, propSpec{id: "C07", modeF: [2]int{100, 1000},
 		rule: "same engine on tables with single, composite, double, empty keys and unique indexes, 3-value domain, 2-4 concurrent writers; oracle = no committed model state has two rows agreeing on a key or on a non-empty unique value, a write colliding with a row visible to the writer is refused, two concurrent colliders never both commit. Non-trivial: a duplicate was refused or a conflict abort happened; distinct by program.",
 		opts: GenOpts{World: WorldOpts{Fkeys: false, EmptyKey: true, MaxTabs: 2}, Slots: 4, MaxInstrs: 40, ValRange: 3,
 			Weights: map[string]int{"output": 20, "update": 12, "begin": 10, "complete": 10}},
@@ -137,12 +190,22 @@ func TestC07(t *testing.T) {
 }
 
 func TestC08(t *testing.T) {
-	runProp(t, propSpec{id: "C08",
+	runProp(t, propSpec{id: "C08", modeF: [2]int{100, 1000},
 		rule: "same engine on target/source table pairs with block, cascade and cascade-update foreign keys, composite and self-referencing keys, values with zero bytes; oracle = every committed model state has a target row for every non-empty foreign key value; source writes without target and target deletes/updates with non-cascading sources must be refused; cascades change exactly the matching sources (own view and committed state compared with the model). Non-trivial: a change of a target row that has source rows cascaded or was refused; distinct by program.",
 		opts: GenOpts{World: WorldOpts{Fkeys: true, SelfRef: true, EmptyKey: false, MaxTabs: 3}, Slots: 3, MaxInstrs: 40, ValRange: 7,
 			Weights: map[string]int{"output": 18, "update": 12, "delete": 12}},
 		nt:    func(l map[string]int) bool { return l["cascade_ops"] > 0 || l["refused_target_change_with_sources"] > 0 },
 		quick: 1500, thorough: 20000})
+}
+
+func TestC16(t *testing.T) {
+	runProp(t, propSpec{id: "C16", modeF: [2]int{150, 1500},
+		rule: "same engine on a database with a 1 ms persist ticker; the real merger goroutine is held (hook) between computing a merge / a ticker-driven persist on a snapshot and applying it, while the program commits further transactions (<= 3, the merge channel holds 4), then released; oracle = the logical content of every index of EVERY published state (state-update hook) equals the serial model of the committed transactions (before or after the current commit, never going back), layers == deltas, btree counts + deltas == Nrows/Size == actual. Non-trivial: a commit landed between a compute and its apply; distinct by program.",
+		opts: GenOpts{World: WorldOpts{Fkeys: true, SelfRef: false, EmptyKey: true, MaxTabs: 2}, Slots: 3, MaxInstrs: 50, ValRange: 12, Pauses: true, GlobalPct: 30,
+			Weights: map[string]int{"pausemerge": 6, "pausepersist": 6, "waitpaused": 8, "release": 5, "persist": 1, "mergesync": 1, "output": 16, "update": 8, "delete": 8, "complete": 14, "begin": 8, "scan": 3, "lookup": 4, "reread": 1, "abort": 1, "beginread": 1}},
+		pauses: true,
+		nt:     func(l map[string]int) bool { return l["commit_landed_between_compute_and_apply"] > 0 },
+		quick: 500, thorough: 8000})
 }
 
 func TestC44(t *testing.T) {
